@@ -13,4 +13,5 @@ func TestSelfNative(t *testing.T) {
 	Self_netip2()
 	Self_repo()
 	Self_misc()
+	Self_threads()
 }
